@@ -425,6 +425,8 @@ PROPS = {
                      "MantraDex.C20Tx.create_farm_autoclose_tx_effect_partial", "MantraDex.C20Tx.create_farm_autoclose_tx_effect_counterexample"],
         "extra_modules": ["MantraDex.Properties.C11Sys", "MantraDex.Properties.C15Sys", "MantraDex.Properties.C20Tx"],
         "streams": {"fm_hist": (160, 4000)},
+        # "closing - by the farm owner, the contract owner, or automatically": the CloseFarm authority monitor decides C11 as well
+        "also_tags": ["C15-unauthorised-accepted"],
         "what": "create_farm takes exactly the reward (+ fee coin when a non-zero fee is due; one coin of reward+fee in the same denom), refunds a fee "
                 "overpayment and sends exactly the fee to the collector; records the full reward as budget, claimed 0, sender as owner, rate = "
                 "floor(reward/(end-start)), start > current epoch within the buffer; expand adds exactly the attached multiple of the rate and extends "
